@@ -11,7 +11,15 @@
 (*    option the set is locked if nothing is held any more (release and    *)
 (*    lock attempt are two linearization steps - the statement does not    *)
 (*    demand more); once locked no acquire ever succeeds;                  *)
-(*  - recover(owner) releases exactly the indices of that (dead) owner.    *)
+(*  - recover(owner) releases exactly the indices of that (dead) owner;     *)
+(*    with the lock-if-last option every recovered index is followed by a  *)
+(*    lock attempt (a linearization step of its own: locks iff nothing is  *)
+(*    held at that instant);                                               *)
+(*  - observers: "obs" (borrowed_indices) returns the number of held       *)
+(*    indices at SOME instant of its call, "il" (is_locked) the lock state *)
+(*    at some instant of its call.  Observers never change the object: a   *)
+(*    release of the last index with lock-if-last must lock the set no     *)
+(*    matter how many observers / other lock attempts overlap it.          *)
 (* Operations are Call (recorded), silent linearization steps, Ret         *)
 (* (recorded, must agree with the fixed result).                           *)
 (***************************************************************************)
@@ -26,7 +34,7 @@ isvars == <<held, locked, cap, pend>>
 
 MaxThreads == 3
 Threads == 0..MaxThreads
-Idle == [st |-> "idle", a |-> "-", i |-> 0, m |-> 0, r |-> "-", v |-> 0, got |-> {}]
+Idle == [st |-> "idle", a |-> "-", i |-> 0, m |-> 0, r |-> "-", v |-> 0, got |-> {}, try |-> FALSE]
 
 HeldIdx == {h[1] : h \in held}
 Free == (0..cap-1) \ HeldIdx
@@ -76,27 +84,42 @@ LinRel2(t) ==
             /\ UNCHANGED locked
 
 \* ---- recover(owner o = pend.i): frees the owner's indices one by one, then finishes
+\* in lock-if-last mode a recovered index is followed by a lock attempt (`try`) that has to be linearized before the
+\* next index is recovered / before the call finishes
 LinRecOne(t) ==
-    /\ pend[t].st = "called" /\ pend[t].a = "rec" /\ ~locked
+    /\ pend[t].st = "called" /\ pend[t].a = "rec" /\ ~locked /\ ~pend[t].try
     /\ \E h \in held :
           /\ h[2] = pend[t].i
           /\ held' = held \ {h}
-          /\ pend' = [pend EXCEPT ![t].got = @ \cup {h[1]}]
+          /\ pend' = [pend EXCEPT ![t].got = @ \cup {h[1]}, ![t].try = (pend[t].m = 1)]
     /\ UNCHANGED <<cap, locked>>
 
-LinRecLock(t) ==   \* lock attempt after a recovered index (lock-if-last mode)
-    /\ pend[t].st = "called" /\ pend[t].a = "rec" /\ pend[t].m = 1
-    /\ held = {} /\ ~locked /\ pend[t].got # {}
-    /\ locked' = TRUE
-    /\ UNCHANGED <<cap, held, pend>>
+LinRecLock(t) ==   \* lock attempt after a recovered index (lock-if-last mode): locks iff nothing is held now
+    /\ pend[t].st = "called" /\ pend[t].a = "rec" /\ pend[t].try
+    /\ locked' = (locked \/ held = {})
+    /\ pend' = [pend EXCEPT ![t].try = FALSE]
+    /\ UNCHANGED <<cap, held>>
 
 LinRecDone(t) ==
-    /\ pend[t].st = "called" /\ pend[t].a = "rec"
+    /\ pend[t].st = "called" /\ pend[t].a = "rec" /\ ~pend[t].try
     /\ (locked \/ \A h \in held : h[2] # pend[t].i)    \* nothing of that owner remains
     /\ pend' = [pend EXCEPT ![t].st = "done", ![t].r = IF locked THEN "locked" ELSE "unlocked"]
     /\ UNCHANGED <<cap, held, locked>>
 
+\* ---- observers: one linearization step, the object is unchanged
+LinObs(t) ==
+    /\ pend[t].st = "called" /\ pend[t].a = "obs"
+    /\ \E n \in (IF locked THEN 0..cap ELSE {Cardinality(held)}) :
+          pend' = [pend EXCEPT ![t].st = "done", ![t].r = "ok", ![t].v = n]
+    /\ UNCHANGED <<cap, held, locked>>
+
+LinIsLocked(t) ==
+    /\ pend[t].st = "called" /\ pend[t].a = "il"
+    /\ pend' = [pend EXCEPT ![t].st = "done", ![t].r = IF locked THEN "true" ELSE "false"]
+    /\ UNCHANGED <<cap, held, locked>>
+
 Lin(t) == LinAcq(t) \/ LinRel1(t) \/ LinRel2(t) \/ LinRecOne(t) \/ LinRecLock(t) \/ LinRecDone(t)
+          \/ LinObs(t) \/ LinIsLocked(t)
 
 SeqToSet(s) == {s[k] : k \in DOMAIN s}
 
@@ -105,6 +128,7 @@ Ret(t, a, r, v, idx) ==
     /\ pend[t].a = a
     /\ pend[t].r = r
     /\ (a = "acq" /\ r = "ok") => pend[t].v = v
+    /\ a = "obs" => pend[t].v = v
     /\ a = "rec" => /\ SeqToSet(idx) = pend[t].got
                     /\ Len(idx) = Cardinality(pend[t].got)
     /\ pend' = [pend EXCEPT ![t] = Idle]
